@@ -127,7 +127,16 @@ fn gen_line(rng: &mut Rng, heavy: bool) -> String {
             let p = gen::random_position(rng);
             format!("position fen {}", clamp_counters(&p).to_fen())
         }
-        _ => format!("go depth {}", rng.range(1, 2)),
+        _ => {
+            if rng.chance(1, 5) {
+                // a position without legal moves: even `go infinite` ends by itself there
+                // (two lines in one: the position and the go)
+                let fen = *rng.pick(&gen::EDGE_FENS[..6]);
+                let go = *rng.pick(&["go infinite", "go depth 64", "go"]);
+                return format!("position fen {}\n{}\n", fen, go);
+            }
+            format!("go depth {}", rng.range(1, 2))
+        }
     };
     let pad_l = if rng.chance(1, 8) { "  " } else { "" };
     let pad_r = if rng.chance(1, 8) { " \t" } else { "" };
@@ -477,6 +486,24 @@ fn violation(sc: &Scenario, r: &RunResult, class: String, detail: String, i: u64
 }
 
 pub fn replay_value(v: &Value) -> Vec<Violation> {
+    if v.get("twin_without_unknown_lines").is_some() {
+        let Some(full) = Scenario::from_json(&v["scenario"]) else { return vec![] };
+        let all = delivered_lines(&full.all_bytes());
+        let is_cmd = |l: &Option<String>| l.as_deref().map(|x| ["uci", "isready", "ucinewgame", "position", "go", "quit"].contains(&first_token(x))).unwrap_or(false);
+        let mut filtered = full.clone();
+        filtered.lines = all.iter().filter(|l| is_cmd(l)).map(|l| format!("{}\n", l.as_deref().unwrap())).collect();
+        let ra = run_scenario(&full, false);
+        let rb = run_scenario(&filtered, false);
+        let ta: Vec<String> = ra.out_lines.iter().map(|l| realbin::strip_time_fields(l)).collect();
+        let tb: Vec<String> = rb.out_lines.iter().map(|l| realbin::strip_time_fields(l)).collect();
+        if ta != tb {
+            let k = (0..ta.len().max(tb.len())).find(|&k| ta.get(k) != tb.get(k)).unwrap_or(0);
+            let mut x = violation(&full, &ra, "unknown_line_changes_later_answers".into(), format!("with the blank/unknown/undecodable lines the session prints {:?} at output line {}, without them {:?}", ta.get(k), k, tb.get(k)), 0, 0);
+            x.scenario = v.clone();
+            return vec![x];
+        }
+        return vec![];
+    }
     let Some(sc) = Scenario::from_json(v) else { return vec![] };
     let r = run_scenario(&sc, false);
     match judge(&sc, &r) {
@@ -486,6 +513,16 @@ pub fn replay_value(v: &Value) -> Vec<Violation> {
 }
 
 pub fn shrink_value(v: &Value) -> Vec<Value> {
+    if v.get("twin_without_unknown_lines").is_some() {
+        let Some(full) = Scenario::from_json(&v["scenario"]) else { return vec![] };
+        let mut out = vec![];
+        for i in 0..full.lines.len() {
+            let mut n = full.clone();
+            n.lines.remove(i);
+            out.push(json!({"twin_without_unknown_lines": true, "scenario": n.to_json()}));
+        }
+        return out;
+    }
     let Some(sc) = Scenario::from_json(v) else { return vec![] };
     let mut out = vec![];
     let total = sc.all_bytes().len();
@@ -692,6 +729,37 @@ pub fn run(ctx: &Ctx) -> i32 {
                 runs.push(s);
             }
         }
+        // "ignores lines it does not understand": the same session without them must give
+        // the same answers (only scripts that search; searches are depth-limited)
+        if heavy {
+            let all = delivered_lines(&base.all_bytes());
+            let is_cmd = |l: &Option<String>| l.as_deref().map(|x| ["uci", "isready", "ucinewgame", "position", "go", "quit"].contains(&first_token(x))).unwrap_or(false);
+            if all.iter().any(|l| !is_cmd(l)) {
+                let mut full = base.clone();
+                full.cut = None;
+                full.chunking = 0;
+                let mut filtered = full.clone();
+                filtered.lines = all.iter().filter(|l| is_cmd(l)).map(|l| format!("{}\n", l.as_deref().unwrap())).collect();
+                let ra = run_scenario(&full, false);
+                let rb = run_scenario(&filtered, false);
+                res.evaluations += 2;
+                log_hash = crate::rng::fnv1a(log_hash, &ra.log_hash.to_le_bytes());
+                log_hash = crate::rng::fnv1a(log_hash, &rb.log_hash.to_le_bytes());
+                res.probes.add("sessions_compared_with_and_without_their_unknown_lines", 1);
+                let ok_a = matches!(ra.outcome, Outcome::Exit(0) | Outcome::Returned);
+                let ok_b = matches!(rb.outcome, Outcome::Exit(0) | Outcome::Returned);
+                if ok_a && ok_b {
+                    let ta: Vec<String> = ra.out_lines.iter().map(|l| realbin::strip_time_fields(l)).collect();
+                    let tb: Vec<String> = rb.out_lines.iter().map(|l| realbin::strip_time_fields(l)).collect();
+                    if ta != tb {
+                        let k = (0..ta.len().max(tb.len())).find(|&k| ta.get(k) != tb.get(k)).unwrap_or(0);
+                        let mut v = violation(&full, &ra, "unknown_line_changes_later_answers".into(), format!("with the blank/unknown/undecodable lines the session prints {:?} at output line {}, without them {:?}", ta.get(k), k, tb.get(k)), i, seed);
+                        v.scenario = json!({"twin_without_unknown_lines": true, "scenario": full.to_json()});
+                        res.violations.push(v);
+                    }
+                }
+            }
+        }
         let real_sample: Option<usize> = if real_bin.is_some() && i % 4 == 0 {
             Some(rng.usize_below(runs.len()))
         } else {
@@ -786,7 +854,7 @@ pub fn run(ctx: &Ctx) -> i32 {
     });
     let ev = Evidence {
         level: "fault_enumeration",
-        rule: "Seeded UCI scripts (uci/isready/ucinewgame/position/go depth<=2/blank/unknown/undecodable lines, CRLF and padding, quit present/absent/not last); for each script every byte offset 0..=len is a crash point 'input ends here' (truncated position/go commands are outside the property and skipped; scripts that run searches enumerate all line boundaries +-1 and a seeded third of the other offsets), plus one transient read error, plus two runs in which every 1st-3rd read() is first interrupted by a signal (EINTR: must be invisible, judged like an undisturbed run). One script in eight is a bulk script: 300-1500 handshake/blank/unknown/undecodable lines (several KiB) delivered in one read or in 512 B-64 KiB blocks, run whole, at four seeded cuts and with EINTR. A case is (script shape, cut, read-error position); all are non-trivial (each runs one simulated engine process to termination).".into(),
+        rule: "Seeded UCI scripts (uci/isready/ucinewgame/position/go depth<=2/blank/unknown/undecodable lines, CRLF and padding, quit present/absent/not last); for each script every byte offset 0..=len is a crash point 'input ends here' (truncated position/go commands are outside the property and skipped; scripts that run searches enumerate all line boundaries +-1 and a seeded third of the other offsets), plus one transient read error, plus two runs in which every 1st-3rd read() is first interrupted by a signal (EINTR: must be invisible, judged like an undisturbed run). Scripts that search are also run whole with and without their blank/unknown/undecodable lines: the answers must be the same. Heavy scripts sometimes contain `go infinite` / `go depth 64` / bare `go` on a position without legal moves (which ends by itself). One script in eight is a bulk script: 300-1500 handshake/blank/unknown/undecodable lines (several KiB) delivered in one read or in 512 B-64 KiB blocks, run whole, at four seeded cuts and with EINTR. A case is (script shape, cut, read-error position); all are non-trivial (each runs one simulated engine process to termination).".into(),
         extra: {
             let mut m = serde_json::Map::new();
             m.insert("real_binary_available".into(), json!(real_bin.is_some()));
